@@ -87,6 +87,10 @@ func (it *Iterator) Refresh() {
 		it.iter.Close()
 		it.iter = it.snap.db.store.NewIterator(it.snap.db.insCmp, it.buf)
 		it.iter.Seek(unsafe.Pointer(itm))
+		// If the item has been unlinked meanwhile (possible when the snapshot is
+		// not pinned, as during a delta backup) the seek stops at its successor,
+		// which may be a version that is not visible in this snapshot.
+		it.skipUnwanted()
 	}
 }
 
